@@ -376,7 +376,9 @@ class CaseGen:
                     ch += ('ignoreua', 'ignoreua=32768', 'ignoreua:i', 'ignoreua:i=1,2')
                 # @bytes with exactly the bytes of the statement (skool2ctl sizes the last statement of the file by it); only where
                 # the unit is certain to be one statement (a value count different from the statement size is a user error)
-                if len(us) == 1 and (kind == 'C' or (kind == 'W' and x.size == 2) or (kind in 'BTS' and x.size <= 8)):
+                # (data sub-blocks are excluded: written without an explicit length they extend to the next directive, so
+                # the statement may be longer than the unit; the deterministic round trips cover @bytes on data statements)
+                if len(us) == 1 and kind == 'C':
                     ch += ('bytes=' + ','.join(('${:02X}' if x.addr % 2 else '{}').format(b) for b in mem[x.addr:x.addr + x.size]),) * 2
                 lines.append('@ {} {}'.format(A(x.addr), rng.choice(ch)))
         d = kind if (kind != natural or rng.random() < 0.5) else ' '
